@@ -23,6 +23,16 @@ CLAIMED = {
    text="Every lattice instant J2000 + k x (1 day + 97 s) (quick) / (6 h + 97 s) (thorough), with sub-offsets {0, 1 ns, 1/2 s}, is converted from TAI (all points) and from TT/GPST/QZSST/GST/BDT (every 8th) to ET and TDB and back; the same counts are read as ET/TDB and converted to the six uniform scales and back. Each result is compared with 32.184 s + K sin E (NAIF) resp. the ESA form at the output's own t within 30 ns, each round trip within 20 ns, and points more than 100 ns apart must keep their order. The maximum observed errors are reported in the evidence (about 1 ns / 12 ns).",
    note="A statement about a transcendental function at 6e20 instants: the lattice step is coprime with the anomalistic year so phases do not repeat; between lattice points the closed form moves by < 1e-9 of the spacing. Platform libm sin() on both sides.",
    ref="DESIGN.md §4 C07"),
+ "C10": dict(
+   technique="bounded explicit-state model checking: exhaustive enumeration of the calendar lattice (years 0001-9999) x 9 scales through the real format -> parse chains, of the complete grammar product (separator x fraction digits x zone incl. all 2 879 offsets x 14 suffixes) and of the numeric forms over a float lattice, judged by a reference renderer and civil arithmetic",
+   text="Each enumerated epoch is formatted by Display, to_gregorian_str, the ISO 8601 formatter, serde_json and to_rfc3339 and parsed back by from_str / from_gregorian_str / serde: same scale and same parts required. The grammar product (64 instants x {T, space} x 0..9 fraction digits in two digit patterns x {none, Z, offsets} x {none, 9 scale names, 4 RINEX aliases}; 7.2 M texts quick, 103 M thorough) must parse to exactly the instant denoted (offset = local - hh:mm, fewer digits = trailing zeros, suffix selects the scale). JD/MJD/SEC forms over the float lattice x 9 scales must denote the instant within 8 ulp of the value (at the larger of |value| and its distance from the scale's anchor) + 2 ns.",
+   note="'Z' followed by a non-UTC suffix and explicit UnsupportedTimeSystem refusals are counted don't-cares; JD in ET/TDB excluded (statement).",
+   ref="DESIGN.md §4 C10"),
+ "C19": dict(
+   technique="bounded explicit-state model checking: exhaustive enumeration of all formats of 1-2 tokens (17 tokens x 57 separator strings), all/every-5th 3-token formats, 16-token rotations and the nine constants x a 55-epoch sub-lattice through the real Format::from_str + Formatter, all 2 879 %z offsets, and parse-back of up to 52 000 full date-time formats, judged by per-token reference pieces",
+   text="For every enumerated (format, epoch) the real output must equal the concatenation of per-token reference pieces (civil fields of the epoch in its own scale, English names, weekday of the printed date) and exactly the format's separators. The six documented constants must equal Format::from_str(documented string); all nine are rendered and compared, incl. optional tokens; ISO8601 formatter == Display for non-zero nanoseconds; %z is checked for every offset -23:59..+23:59 incl. parse-back of the local time; all 5 040 orders of the seven numeric tokens and all 46 656 separator assignments (every 7th/11th in quick) plus name/ordinal formats are rendered for UTC epochs and parsed back through three entry points.",
+   note="%y's own text is not pinned by the statement (counted don't-care); %J/%w are compared with the accessors. ISO8601 == Display is not judged for whole seconds: the statement's nine-digit %f rule and its display rule contradict each other there.",
+   ref="DESIGN.md §4 C19"),
  "C11": dict(
    technique="bounded explicit-state model checking: exhaustive enumeration of the unit-multiple duration lattice through the real decompose/Display/FromStr/serde chain, and of the parser's complete spelling, component-subset and offset tables, judged by integer decomposition and a reference renderer",
    text="~8 000 (quick) / ~25 000 (thorough) durations within 10 000 years (every k x unit +- 0..3 ns for the seven units and ~100 values of k, both signs) are decomposed, subdivided, displayed, parsed back, serialized to JSON and back and read through Epoch::hours()..nanoseconds(); every result is compared with the integer model / reference text and the parse-back with the original parts. All 25 unit spellings x 12 values x sign, all 127 component subsets x 3 value sets x sign and all 28 800 offset strings in five shapes are parsed and compared with the value they denote.",
@@ -113,7 +123,7 @@ def main():
             "level_note": c["note"],
             "technique": c["technique"],
         })
-    na = [{"property_id": p, "reason": "check not built yet in this round (work in progress; planned as bounded explicit-state exploration like the others, see DESIGN.md §4)"} for p in ALL if p not in CLAIMED]
+    na = [{"property_id": p, "reason": "check not built yet"} for p in ALL if p not in CLAIMED]
     m = {
         "version": 1,
         "setup_cmd": "./vf setup",
